@@ -8,13 +8,15 @@ Local Open Scope N_scope.
 Definition faulty (w : world) (n : str) : bool := negb (servable w n).
 
 (* ---- the loop itself, for ANY names and ANY world (= any fault assignment) ---- *)
-Lemma prep_entries_repaired_ok w names :
-  exists l, prep_entries true (dir_child w) names = Ok l /\
+Lemma prep_entries_repaired_ok fx w names :
+  fx_skip_child fx = true -> fx_skip_unreadable fx = true ->
+  exists l, prep_entries (skip_of fx) (dir_child w) names = Ok l /\
             map fst l = filter (fun n => negb (faulty w n)) names /\
             (forall n ci, In n names -> child_entry w n = Ok ci -> In (n, ci_entry ci) l).
 Proof.
-  destruct (prep_entries_total (dir_child w) names) as [l E].
-  { intros n e _. apply dir_child_raises_notfound. }
+  intros F G.
+  destruct (prep_entries_total (skip_of fx) (dir_child w) names) as [l E].
+  { intros n e _ C. apply (skip_of_survives fx e F G). now apply (dir_child_raises_notfound w n). }
   exists l. split; [exact E|]. split.
   - rewrite (prep_entries_names _ _ _ _ E). apply filter_ext_in'. intros n _.
     unfold faulty. rewrite negb_involutive. apply dir_child_listed.
@@ -22,20 +24,20 @@ Proof.
 Qed.
 
 (* order of the survivors = their order among the names handed to the loop *)
-Lemma prep_entries_order_preserved w names l :
-  prep_entries true (dir_child w) names = Ok l -> l = kept (dir_child w) names.
+Lemma prep_entries_order_preserved skip w names l :
+  prep_entries skip (dir_child w) names = Ok l -> l = kept (dir_child w) names.
 Proof. apply prep_entries_kept. Qed.
 
 (* ---- whole DirHandler listing ---- *)
 Lemma dir_others_kept fx alts w enum :
-  fx_skip_child fx = true ->
+  fx_skip_child fx = true -> fx_skip_unreadable fx = true ->
   exists l, dir_listing fx alts w enum = Ok l /\
     map fst l = filter (fun n => negb (faulty w n)) (dir_files fx alts w enum) /\
     (forall n ci, In n enum -> visible_dir alts w n = true -> child_entry w n = Ok ci ->
                   In (n, ci_entry ci) l).
 Proof.
-  intros F. unfold dir_listing. rewrite F.
-  destruct (prep_entries_repaired_ok w (dir_files fx alts w enum)) as (l & E & Nm & Cp).
+  intros F G. unfold dir_listing.
+  destruct (prep_entries_repaired_ok fx w (dir_files fx alts w enum) F G) as (l & E & Nm & Cp).
   exists l. split; [exact E|]. split; [exact Nm|].
   intros n ci I V C. apply Cp; [|exact C].
   apply (Permutation_in _ (Permutation_sym (dir_files_perm fx alts w enum))).
@@ -47,24 +49,27 @@ Qed.
    statement is about the outcome of the child loop ---- *)
 Lemma umn_child_raises plf mode w n e :
   umn_child plf mode w n = Raise e ->
-  (child_entry w n = Raise FileNotFound /\ e = FileNotFound) \/
+  (exists e', child_entry w n = Raise e' /\ e = e' /\ (e = FileNotFound \/ e = IOErr)) \/
   (exists ci, child_entry w n = Ok ci /\ umn_append plf mode (w_cap w n) n ci = Raise e).
 Proof.
   unfold umn_child. destruct (child_entry w n) as [ci|e'] eqn:C; simpl.
   - intros H. right. eauto.
-  - intros H. inversion H. subst. left. pose proof (child_entry_raises_notfound _ _ _ C). subst. tauto.
+  - intros H. inversion H. subst. left. exists e. split; [reflexivity|]. split; [reflexivity|].
+    exact (child_entry_raises_notfound _ _ _ C).
 Qed.
 
-Lemma umn_children_others_kept plf mode w names :
+Lemma umn_children_others_kept fx plf mode w names :
+  fx_skip_child fx = true -> fx_skip_unreadable fx = true ->
   (forall n ci e, In n names -> child_entry w n = Ok ci -> umn_append plf mode (w_cap w n) n ci <> Raise e) ->
-  exists l, prep_entries true (umn_child plf mode w) names = Ok l /\
+  exists l, prep_entries (skip_of fx) (umn_child plf mode w) names = Ok l /\
     forall n ci e, In n names -> child_entry w n = Ok ci ->
                    umn_append plf mode (w_cap w n) n ci = Ok (Some e) -> In (n, e) l.
 Proof.
-  intros Hcap.
-  destruct (prep_entries_total (umn_child plf mode w) names) as [l E].
-  { intros n e I R. destruct (umn_child_raises _ _ _ _ _ R) as [[_ ->]|(ci & C & A)]; [reflexivity|].
-    exfalso. eapply Hcap; eauto. }
+  intros F G Hcap.
+  destruct (prep_entries_total (skip_of fx) (umn_child plf mode w) names) as [l E].
+  { intros n e I R. destruct (umn_child_raises _ _ _ _ _ R) as [(e' & _ & _ & D)|(ci & C & A)].
+    - now apply skip_of_survives.
+    - exfalso. eapply Hcap; eauto. }
   exists l. split; [exact E|]. intros n ci e I C A.
   eapply prep_entries_complete; eauto. unfold umn_child. rewrite C. exact A.
 Qed.
@@ -102,3 +107,18 @@ Lemma d7_repaired :
   exists l, dir_listing repaired shipped_ignore d7_world d7_enum = Ok l /\
             map fst l = [lit "a.txt"%string; lit "z.txt"%string].
 Proof. eexists. split; vm_compute; reflexivity. Qed.
+
+(* D26: a child the handler chain accepts but cannot read (HTML title of an unreadable file) *)
+Definition d26_world : world :=
+  mkWorld (lit "/d"%string)
+    (fun n => if str_eqb n (lit "locked.html"%string) then Some KUnreadable else Some KFile)
+    (w_info d7_world) (fun _ => None) (fun _ => None).
+Definition d26_enum : list str := [lit "a.txt"%string; lit "locked.html"%string; lit "z.txt"%string].
+Definition head_before_d26 : fixes := mkFixes true true true true true true true false.
+
+Lemma unreadable_refuted :
+  dir_listing head_before_d26 shipped_ignore d26_world d26_enum = Raise IOErr /\
+  umn_listing head_before_d26 shipped_ignore StripNone d26_world d26_enum = Raise IOErr /\
+  exists l, dir_listing repaired shipped_ignore d26_world d26_enum = Ok l /\
+            map fst l = [lit "a.txt"%string; lit "z.txt"%string].
+Proof. split; [vm_compute; reflexivity|]. split; [vm_compute; reflexivity|]. eexists. split; vm_compute; reflexivity. Qed.
